@@ -305,6 +305,14 @@ def history(ctx, k, L, tmp):
                             ctx.fail("oracle", "result of %s is / shares its data buffer with live %s (pool index %d)" % (name, kd, j),
                                      dict(level="alias", history=list(names), seed_offset=k), impl=type(res).__name__)
                             return
+            # the hypothesis of `frozen_history` (PynProps/C10.lean): the start/end array of every IntervalSet reachable from a result
+            # (itself, a time support, a member's support) and every time index is handed out frozen
+            for res in _flatten(r):
+                bad = _unfrozen(res)
+                if bad:
+                    ctx.fail("oracle", "result of %s carries a writeable %s" % (name, bad), dict(level="frozen", history=list(names), seed_offset=k),
+                             impl=type(res).__name__)
+                    return
             P.add(r)
     # mutation isolation: item assignment / set_info on one object changes that object only
     cands = [(i, o) for i, (kd, o) in enumerate(P.objs) if kd in ("tsd", "frame") and len(o) > 3]
@@ -341,6 +349,23 @@ def history(ctx, k, L, tmp):
             if j != i and a != b and not _contains(P.objs[j][1], o):
                 ctx.fail("oracle", "set_info on pool object %d (%s) also changed object %d (%s)" % (i, P.objs[i][0], j, P.objs[j][0]),
                          dict(level="mutation", history=list(names), seed_offset=k))
+
+
+def _unfrozen(o, depth=0):
+    """name of the first writeable start/end array or time index reachable from o (None when all are frozen)"""
+    if isinstance(o, nap.IntervalSet):
+        return "IntervalSet.values" if o.values.flags.writeable else None
+    if isinstance(o, nap.TsGroup):
+        for k in o.keys():
+            b = _unfrozen(o[k], depth + 1)
+            if b:
+                return "member %s: %s" % (k, b)
+        return _unfrozen(o.time_support, depth + 1)
+    if isinstance(o, (nap.Ts, nap.Tsd, nap.TsdFrame, nap.TsdTensor)):
+        if np.asarray(o.index).flags.writeable or o.index.values.flags.writeable or o.t.flags.writeable:
+            return "time index"
+        return _unfrozen(o.time_support, depth + 1)
+    return None
 
 
 def _flatten(r):
